@@ -270,8 +270,10 @@ func main() {
 	var dialLean string
 	var pollLean string
 	var fdOnce string
+	var mgrCalls string
 	for _, p := range pkgs {
 		if p.Name == "netpoll" {
+			mgrCalls = mgrCallLean(p)
 			dialLean = dialFacts(p)
 			pollLean = pollFacts(p)
 			fdOnce = fdOnceLean(p)
@@ -494,6 +496,8 @@ func main() {
 			}
 			mb.WriteString("]\n\n")
 		}
+		// who calls the pool's methods, and whether Run is entered under the status CAS (manager.go)
+		mb.WriteString(mgrCalls)
 		mb.WriteString("end Netpoll.Gen\n")
 		if err := os.WriteFile(filepath.Join(*out, "Manager.lean"), []byte(mb.String()), 0o644); err != nil {
 			fmt.Fprintln(os.Stderr, err)
